@@ -532,20 +532,46 @@ impl<'p, W, R, T> CompilationScope<'p, W, R, T> {
         &self.ancestor_at_depth(depth).forwards[freq.ref_idx]
     }
 
+    /// the first unfulfilled forward function behind a requirement: the forward function itself, or - when it has
+    /// been implemented - one that its implementation (transitively) depends on. A function that was defined
+    /// while `freq` was pending only recorded `freq`; what the later implementation of `freq` needs counts too
+    fn unfulfilled_behind(&self, freq: &ForwardRefRequirement) -> Option<ForwardRefRequirement> {
+        let mut pending = vec![*freq];
+        let mut seen = BTreeSet::new();
+        while let Some(freq) = pending.pop() {
+            if !seen.insert(freq) {
+                continue;
+            }
+            let owner = self.ancestor_at_depth(self.height - freq.ancestor_height);
+            let fref = &owner.forwards[freq.ref_idx];
+            if !fref.fulfilled {
+                return Some(freq);
+            }
+            if let Some(Cell::Variable {
+                forward_requirements,
+                ..
+            }) = owner.cells.iter().nth(fref.cell_idx)
+            {
+                pending.extend(forward_requirements.iter().cloned());
+            }
+        }
+        None
+    }
+
     fn require_forwards(
         &mut self,
         refs: impl IntoIterator<Item = ForwardRefRequirement>,
     ) -> Result<(), CompilationError> {
         for freq in refs {
-            let fref = &self.forward_ref(&freq);
-            if !fref.fulfilled {
-                if freq.ancestor_height == self.height {
+            if let Some(missing) = self.unfulfilled_behind(&freq) {
+                if missing.ancestor_height == self.height {
+                    let fref = self.forward_ref(&missing);
                     return Err(CompilationError::MissingForwardImplementation {
                         name: fref.name,
                         spec: fref.spec.clone(),
                     });
                 } else {
-                    self.forward_requirements.insert(freq);
+                    self.forward_requirements.insert(missing);
                 }
             }
         }
@@ -643,11 +669,15 @@ impl<'p, W, R, T> CompilationScope<'p, W, R, T> {
                                 ..
                             } = &overload.1
                             {
-                                // we need to discard forward references that are fulfilled by the current scope
+                                // we need to discard forward references that are fulfilled by the current scope:
+                                // the function's own forward declaration lives in the scope the function is
+                                // declared in (the parent of this body scope); a pending forward declaration
+                                // of an outer scope is a different function, even with an identical signature
                                 if &spec.xtype() == recourse_xtype
-                                    && forward_requirements
-                                        .iter()
-                                        .any(|freq| !self.forward_ref(freq).fulfilled)
+                                    && forward_requirements.iter().any(|freq| {
+                                        !self.forward_ref(freq).fulfilled
+                                            && freq.ancestor_height + ScopeDepth(1) == self.height
+                                    })
                                 {
                                     continue;
                                 }
@@ -1101,7 +1131,7 @@ impl<'p, W, R, T> CompilationScope<'p, W, R, T> {
                 {
                     forward_requirements
                         .iter()
-                        .all(|r| self.forward_ref(r).fulfilled)
+                        .all(|r| self.unfulfilled_behind(r).is_none())
                 } else {
                     true
                 }
